@@ -333,6 +333,7 @@ func aliasStream(seed uint64, tier string, outDir string, props map[string]bool,
 		nh = 4000
 	}
 	var cases []string
+	distinctSeen := map[string]bool{}
 	flush := func() {
 		if len(cases) == 0 {
 			return
@@ -356,7 +357,10 @@ func aliasStream(seed uint64, tier string, outDir string, props map[string]bool,
 			continue
 		}
 		rep.Cases++
-		rep.Distinct++
+		if !distinctSeen[h] {
+			distinctSeen[h] = true
+			rep.Distinct++
+		}
 		cases = append(cases, h)
 		if len(cases) >= perFile {
 			flush()
